@@ -184,6 +184,25 @@ impl Lab {
         Ok(Lab { server, events: mio::Events::with_capacity(1024), addr, pk, srv, socks, sentinel: client_socket(), queue, cfg, sentinel_ctr: 0, born: Instant::now(), patience: Duration::from_secs(5), force_sentinel: None })
     }
 
+    /// a lab around a server built from an arbitrary (e.g. file- or environment-loaded) configuration
+    pub fn with_config(config: &dyn roughenough::config::ServerConfig, nsocks: usize) -> Result<Lab, String> {
+        let sock = MioUdp::bind(&"127.0.0.1:0".parse().unwrap()).map_err(|e| format!("bind: {}", e))?;
+        set_rcvbuf(sock.as_raw_fd(), 64 << 20);
+        let addr = sock.local_addr().unwrap();
+        let queue = Arc::new(StatsQueue::new(64));
+        let q2 = queue.clone();
+        let server = no_unwind(move || Box::new(Server::new(config, sock, q2))).map_err(|p| format!("Server::new panicked: {}", p))?;
+        let seed = config.seed();
+        if seed.len() != 32 {
+            return Err("seed is not 32 bytes".into());
+        }
+        let pk = RefKey::from_seed(&seed).public();
+        let srv = srv_value(&pk);
+        let socks = (0..nsocks).map(|_| client_socket()).collect();
+        let cfg = LabCfg { seed, batch_size: config.batch_size(), fault: config.fault_percentage(), client_stats: config.client_stats_enabled(), status_interval: config.status_interval() };
+        Ok(Lab { server, events: mio::Events::with_capacity(1024), addr, pk, srv, socks, sentinel: client_socket(), queue, cfg, sentinel_ctr: 0, born: Instant::now(), patience: Duration::from_secs(5), force_sentinel: None })
+    }
+
     pub fn ensure_socks(&mut self, n: usize) {
         while self.socks.len() < n {
             self.socks.push(client_socket());
